@@ -3,6 +3,7 @@ package main
 import (
 	"encoding/hex"
 	"fmt"
+	"math"
 	"strconv"
 	"strings"
 	"time"
@@ -235,6 +236,8 @@ func execCV(_ *config, op string) string {
 	case "conv":
 		out, _ := cvConvert(toks, true, nil)
 		return out
+	case "pred":
+		return cvPredict(toks)
 	case "shift":
 		with, sess := cvConvert(toks, true, nil)
 		if cvField(toks, "S") != "1" {
@@ -244,6 +247,132 @@ func execCV(_ *config, op string) string {
 		return with + " || " + without
 	}
 	return "bad"
+}
+
+// cvPredict checks Session.PredictOBD with gonum's other fittable predictors, whose mathematics
+// is not modelled: every channel of every row that has a GPS update, no fresh reading and lies
+// between two fresh readings must carry what a predictor of that type, fitted to that channel's
+// fresh readings alone, says at the row's time (oracle: a fresh predictor per channel, here).
+func cvPredict(toks []string) string {
+	mk := func() interp.FittablePredictor {
+		switch cvField(toks, "PR") {
+		case "ak":
+			return &interp.AkimaSpline{}
+		case "fb":
+			return &interp.FritschButland{}
+		case "nc":
+			return &interp.NaturalCubic{}
+		case "cc":
+			return &interp.ClampedCubic{}
+		case "nk":
+			return &interp.NotAKnotCubic{}
+		case "pc":
+			return &interp.PiecewiseConstant{}
+		}
+		return &interp.PiecewiseLinear{}
+	}
+	c, sess := taDecode([]byte(unhexStr(cvField(toks, "X"))))
+	if c != "ok" {
+		return "skip decode"
+	}
+	chans := []func(*trackaddict.OBD) *float64{
+		func(o *trackaddict.OBD) *float64 { return o.Speed }, func(o *trackaddict.OBD) *float64 { return o.EngineSpeed },
+		func(o *trackaddict.OBD) *float64 { return o.Throttle }, func(o *trackaddict.OBD) *float64 { return o.CoolantTemp },
+		func(o *trackaddict.OBD) *float64 { return o.IntakeTemp }, func(o *trackaddict.OBD) *float64 { return o.ManifoldPressure },
+	}
+	type want struct {
+		lap, row, ch int
+		x            float64
+	}
+	var (
+		xs     []float64
+		ys     = make([][]float64, len(chans))
+		wants  []want
+		start  time.Time
+		logged = map[[3]int]float64{}
+	)
+	for li, l := range sess.Laps {
+		for ri := range l.Records {
+			r := &l.Records[ri]
+			if r.OBD == nil {
+				continue
+			}
+			for ci, get := range chans {
+				if p := get(r.OBD); p != nil {
+					logged[[3]int{li, ri, ci}] = *p
+				}
+			}
+			switch {
+			case r.OBD.Update:
+				if start.IsZero() {
+					start = r.Time
+				}
+				xs = append(xs, r.Time.Sub(start).Seconds())
+				for ci, get := range chans {
+					if p := get(r.OBD); p != nil {
+						ys[ci] = append(ys[ci], *p)
+					}
+				}
+			case r.GPS.Update && !start.IsZero():
+				for ci := range chans {
+					wants = append(wants, want{li, ri, ci, r.Time.Sub(start).Seconds()})
+				}
+			}
+		}
+	}
+	for i := 1; i < len(xs); i++ {
+		if xs[i] <= xs[i-1] {
+			return "skip not-increasing" // gonum's Fit panics, as documented
+		}
+	}
+	if len(xs) < 2 {
+		return "skip readings"
+	}
+	fitted := make([]interp.FittablePredictor, len(chans))
+	for ci := range chans {
+		if len(ys[ci]) != len(xs) {
+			continue // channel not in the log
+		}
+		fitted[ci] = mk()
+		if cls, _ := classify(func() error { return fitted[ci].Fit(xs, ys[ci]) }); cls != "ok" {
+			return "skip fit-" + cls
+		}
+	}
+	cls, _ := classify(func() error { return sess.PredictOBD(mk()) })
+	if cls != "ok" {
+		return "diff predict=" + cls
+	}
+	n := 0
+	for _, w := range wants {
+		if fitted[w.ch] == nil || w.x <= xs[0] || w.x >= xs[len(xs)-1] {
+			continue
+		}
+		p := chans[w.ch](sess.Laps[w.lap].Records[w.row].OBD)
+		exp := fitted[w.ch].Predict(w.x)
+		if p == nil || math.Float64bits(*p) != math.Float64bits(exp) {
+			got := "nil"
+			if p != nil {
+				got = hexFloat(*p)
+			}
+			return fmt.Sprintf("diff lap=%d row=%d ch=%d got=%s want=%s", w.lap, w.row, w.ch, got, hexFloat(exp))
+		}
+		n++
+	}
+	// rows with fresh readings keep exactly what was logged
+	for li, l := range sess.Laps {
+		for ri := range l.Records {
+			r := &l.Records[ri]
+			if r.OBD == nil || !r.OBD.Update {
+				continue
+			}
+			for ci, get := range chans {
+				if p := get(r.OBD); p != nil && math.Float64bits(*p) != math.Float64bits(logged[[3]int{li, ri, ci}]) {
+					return fmt.Sprintf("diff fresh lap=%d row=%d ch=%d", li, ri, ci)
+				}
+			}
+		}
+	}
+	return fmt.Sprintf("ok n=%d", n)
 }
 
 // ---- generators --------------------------------------------------------------------------
@@ -419,6 +548,12 @@ func genCV(cfg *config, r *rng, i int, s *sink) string {
 		if r.chance(1, 2) {
 			base = base - (base % 86400) - int64(1+r.intn(20)) // ... -00:00:20 .. -00:00:01 before a midnight
 		}
+	}
+	if (cfg.prop == "C11" || cfg.prop == "") && r.chance(1, 6) {
+		text, _ := cvLog(r, s, maxLaps, maxRows+6, true, base)
+		pk := pick(r, []string{"ak", "fb", "nc", "cc", "nk", "pl", "pc"})
+		s.count("cv.op.pred." + pk)
+		return fmt.Sprintf("pred PR=%s X=%s", pk, hexStr(text))
 	}
 	text, oracle := cvLog(r, s, maxLaps, maxRows, withOBD, base)
 	sd := "-"
